@@ -10,33 +10,35 @@
 #include <string.h>
 #include "src/lib/ares_send.c"
 unsigned short snl_id; _Bool snl_oom;
-static int g_cb, g_cb_status, g_freed, g_sent, g_dup_destroyed; static _Bool g_in_all, g_in_qid, g_cache_hit, g_cancel_in_cb, g_have_servers; static ares_status_t g_cache_status, g_dup_status, g_send_status; static ares_query_t *g_q; static char node_tok, rec_tok, cached_tok;
+static int g_cb, g_cb_status, g_freed, g_sent, g_dup_destroyed; static _Bool g_dup_made; static _Bool g_in_all, g_in_qid, g_cache_hit, g_cancel_in_cb, g_have_servers; static ares_status_t g_cache_status, g_dup_status, g_send_status; static ares_query_t *g_q; static char node_tok, rec_tok, cached_tok;
 static void release_query(ares_query_t *q) { __CPROVER_assert(q == g_q && g_freed == 0, "C01: a request object is released exactly once"); g_freed++; g_in_all = 0; g_in_qid = 0; free(q); }
+/* ares_free_query()/end_query() also release the request's own copy of the DNS record; a bare ares_free() of the struct does not */
+static void release_query_and_record(ares_query_t *q) { if (q == g_q && g_freed == 0 && q->query != NULL) g_dup_destroyed++; release_query(q); }
 static void user_cb(void *arg, ares_status_t status, size_t timeouts, const ares_dns_record_t *dnsrec)
 {
   g_cb++; g_cb_status = status;
-  if (g_cancel_in_cb && g_in_all && g_q != NULL && g_freed == 0) { g_cb++; /* ares_cancel(): ECANCELLED for the request found in all_queries */ release_query(g_q); }
+  if (g_cancel_in_cb && g_in_all && g_q != NULL && g_freed == 0) { g_cb++; /* ares_cancel(): ECANCELLED for the request found in all_queries */ release_query_and_record(g_q); }
 }
 size_t ares_slist_len(const ares_slist_t *l) { return g_have_servers ? 1 : 0; }
 void ares_tvnow(ares_timeval_t *now) { now->sec = 1; now->usec = 0; }
 ares_status_t ares_qcache_fetch(ares_channel_t *c, const ares_timeval_t *now, const ares_dns_record_t *req, const ares_dns_record_t **resp) { if (g_cache_status == ARES_SUCCESS) *resp = (const ares_dns_record_t *)&cached_tok; return g_cache_status; }
 void *ares_malloc(size_t n) { if (snl_oom && nondet_bool()) return NULL; void *p = malloc(n); __CPROVER_assume(p != NULL); g_q = p; return p; }
 void ares_free(void *p) { if (p == NULL) return; release_query(p); }
-ares_status_t ares_dns_record_duplicate_ex(ares_dns_record_t **dest, const ares_dns_record_t *src) { if (g_dup_status != ARES_SUCCESS) { *dest = NULL; return g_dup_status; } *dest = (ares_dns_record_t *)&rec_tok; return ARES_SUCCESS; }
+ares_status_t ares_dns_record_duplicate_ex(ares_dns_record_t **dest, const ares_dns_record_t *src) { if (g_dup_status != ARES_SUCCESS) { *dest = NULL; return g_dup_status; } *dest = (ares_dns_record_t *)&rec_tok; g_dup_made = 1; return ARES_SUCCESS; }
 ares_bool_t ares_dns_record_set_id(ares_dns_record_t *r, unsigned short id) { __CPROVER_assert(id == snl_id, "C05: the request carries the fresh id"); return ARES_TRUE; }
 ares_llist_node_t *ares_llist_insert_last(ares_llist_t *l, void *v) { if (snl_oom && nondet_bool()) return NULL; __CPROVER_assert(v == (void *)g_q, "the request is listed"); g_in_all = 1; return (ares_llist_node_t *)&node_tok; }
 ares_bool_t ares_htable_szvp_insert(ares_htable_szvp_t *h, size_t key, void *v) { if (snl_oom && nondet_bool()) return ARES_FALSE; __CPROVER_assert(key == snl_id && v == (void *)g_q, "C05: indexed under its id"); g_in_qid = 1; return ARES_TRUE; }
-void ares_free_query(ares_query_t *q) { release_query(q); }
+void ares_free_query(ares_query_t *q) { release_query_and_record(q); }
 ares_status_t ares_send_query(ares_server_t *srv, ares_query_t *q, const ares_timeval_t *now)
 {
   __CPROVER_assert(q == g_q && g_freed == 0 && g_in_all && g_in_qid, "C01: only a live, fully registered request is transmitted");
-  g_sent++; if (g_send_status != ARES_SUCCESS) { g_cb++; g_cb_status = g_send_status; release_query(q); }   /* end_query(): callback once, released */
+  g_sent++; if (g_send_status != ARES_SUCCESS) { g_cb++; g_cb_status = g_send_status; release_query_and_record(q); }   /* end_query(): callback once, released */
   return g_send_status;
 }
 void h_send_nolock(void)
 {
   static ares_channel_t ch; ch.flags = nondet_uint(); g_have_servers = nondet_bool(); g_cache_status = (ares_status_t)(nondet_uint() % 26); g_dup_status = nondet_bool() ? ARES_SUCCESS : (nondet_bool() ? ARES_EBADRESP : ARES_ENOMEM); g_send_status = nondet_bool() ? ARES_SUCCESS : (ares_status_t)(1 + nondet_uint() % 25);
-  snl_id = nondet_u16(); snl_oom = nondet_bool(); g_cancel_in_cb = nondet_bool(); g_cb = g_freed = g_sent = 0; g_in_all = g_in_qid = 0; g_q = NULL; unsigned short qid = 0; ares_send_flags_t fl = (ares_send_flags_t)(nondet_uint() & 3);
+  snl_id = nondet_u16(); snl_oom = nondet_bool(); g_cancel_in_cb = nondet_bool(); g_cb = g_freed = g_sent = g_dup_destroyed = 0; g_dup_made = 0; g_in_all = g_in_qid = 0; g_q = NULL; unsigned short qid = 0; ares_send_flags_t fl = (ares_send_flags_t)(nondet_uint() & 3);
   ares_status_t rv = ares_send_nolock(&ch, NULL, fl, (const ares_dns_record_t *)&cached_tok, user_cb, NULL, &qid);
   if (rv == ARES_SUCCESS && g_sent == 1 && g_send_status == ARES_SUCCESS) {
     __CPROVER_assert(g_cb == 0 && g_freed == 0 && g_in_all && g_in_qid && qid == snl_id, "C01: an accepted request stays outstanding, registered in both indexes, and its id is reported");
@@ -44,6 +46,7 @@ void h_send_nolock(void)
   }
   __CPROVER_assert(g_cb == 1, "C01/C14: a request that is not left outstanding gets exactly one callback (no server, cache answer, any allocation failure, failed transmission) -- also when that callback cancels the channel");
   __CPROVER_assert(g_q == NULL || g_freed == 1, "C01/C14: a request object that was created is released exactly once");
+  __CPROVER_assert(g_dup_destroyed == (g_dup_made ? 1 : 0), "C14: the request's own copy of the DNS record is released with it (no leak on any failure path)");
   __CPROVER_assert(rv == (ares_status_t)g_cb_status || (g_dup_status == ARES_EBADRESP && rv == ARES_EBADQUERY), "C01: the status returned is the status given to the callback");
   if (!g_have_servers) __CPROVER_assert(rv == ARES_ENOSERVER, "C09: no server configured");
 }
